@@ -16,7 +16,7 @@ tvars == <<vars, l>>
 e == Trace[l]
 
 \* ---- observation after a store / graph operation --------------------------------------------
-\* names: what Store.GraphNames delivered; obs[i] = [g, x, ls, ex]: for universe name g whether
+\* names: what Store.GraphNames delivered; obs[i] = [g, x, ls, ex, ex2]: for universe name g whether
 \* Store.Graph succeeded, the Graph.Triples(DefaultLookup) listing as triple ids (0 = a triple that
 \* is not in the universe) and the universe triples for which Graph.Exist said true.
 ObsOK(obs, names, G, C) ==
@@ -28,6 +28,8 @@ ObsOK(obs, names, G, C) ==
                     /\ Range(o.ls) = C[o.g]
                     /\ Range(o.ex) = C[o.g]                \* the existence test reflects the same set
                     /\ Len(o.ex) = Cardinality(C[o.g])
+                    /\ Range(o.ex2) = C[o.g]               \* ... also when asked with the anchors in another zone
+                    /\ Len(o.ex2) = Cardinality(C[o.g])
 
 ObsG(names) == Range(names) \cap NameSet
 ObsC(obs) == [n \in NameSet |->
